@@ -640,3 +640,6 @@ UNITS.append(Unit("C16", "jsonargparse._link_arguments:ActionLink.apply_instanti
 
 from contracts.link_helpers import find_subclass_action_or_class_group_unit, get_nested_links_unit  # noqa: E402
 UNITS += [find_subclass_action_or_class_group_unit("C16"), get_nested_links_unit("C16")]
+
+from contracts.any_units import typehint_instantiate_unit  # noqa: E402
+UNITS.append(typehint_instantiate_unit("C16"))
